@@ -758,9 +758,13 @@ impl DirectAddrUpdateState {
     fn schedule_run(&mut self, why: UpdateReason, if_state: IfStateDetails) {
         match self.net_reporter.clone().try_lock_owned() {
             Ok(net_reporter) => {
+                #[cfg(iroh_verif)]
+                iroh_base::verif::event("direct_addr.request", || format!("{why:?} free"));
                 self.run(why, if_state, net_reporter);
             }
             Err(_) => {
+                #[cfg(iroh_verif)]
+                iroh_base::verif::event("direct_addr.request", || format!("{why:?} queued"));
                 let _ = self.want_update.insert(why);
             }
         }
@@ -776,6 +780,8 @@ impl DirectAddrUpdateState {
             }
             Err(_) => {
                 // do nothing
+                #[cfg(iroh_verif)]
+                iroh_base::verif::event("direct_addr.try_run", || "locked".to_string());
             }
         }
     }
@@ -806,6 +812,8 @@ impl DirectAddrUpdateState {
         self.port_mapper.procure_mapping();
 
         trace!("requesting net_report report");
+        #[cfg(iroh_verif)]
+        iroh_base::verif::event("direct_addr.run.start", || format!("{why:?}"));
         let sock = self.sock.clone();
 
         let run_done = self.run_done.clone();
@@ -815,10 +823,28 @@ impl DirectAddrUpdateState {
         let inner_token = token.child_token();
         task::spawn(
             async move {
+                #[cfg(not(iroh_verif))]
                 let fut = token.run_until_cancelled(time::timeout(
                     NET_REPORT_TIMEOUT,
                     net_reporter.get_report(if_state, why.is_major(), inner_token),
                 ));
+                // Verification seam: a simulator may script how long the probing takes instead
+                // of running real probes; the reporter lock is held exactly as in the real run.
+                #[cfg(iroh_verif)]
+                let fut = {
+                    let net_reporter = &mut net_reporter;
+                    token.run_until_cancelled(time::timeout(NET_REPORT_TIMEOUT, async move {
+                        if let Some(ms) = iroh_base::verif::stub("net_report.get_report", "")
+                            .and_then(|v| v.parse::<u64>().ok())
+                        {
+                            time::sleep(Duration::from_millis(ms)).await;
+                            return net_report::Report::default();
+                        }
+                        net_reporter
+                            .get_report(if_state, why.is_major(), inner_token)
+                            .await
+                    }))
+                };
 
                 match fut.await {
                     Some(Ok(report)) => {
@@ -836,10 +862,16 @@ impl DirectAddrUpdateState {
                 // the signal with `try_run`, which must be able to take the lock to start a
                 // pending update. Otherwise that update is lost until the next request.
                 drop(net_reporter);
+                #[cfg(iroh_verif)]
+                iroh_base::verif::event("direct_addr.run.finish", || format!("{why:?}"));
 
                 // mark run as finished
                 debug!("direct addr update done ({:?})", why);
                 run_done.send(()).await.ok();
+                // Schedule point: on a multi-threaded runtime the socket actor can react to the
+                // done signal before this task has ended.
+                #[cfg(iroh_verif)]
+                iroh_base::verif::apoint("direct_addr.run.after_done").await;
             }
             .instrument(tracing::Span::current()),
         );
